@@ -143,6 +143,18 @@ def annotation_models():
                         na = Namespace('na', (File(None, ('nb',), tuple(sorted(user, key=mm_def_key))),))
                         model = Model((na, nb))
                     out.append((model, ('annotation-types', pname, 'doc' if doc else 'nodoc', 'args%d' % ai, 'imported' if home else 'local')))
+    # custom annotations inside reference cycles: which annotations apply below a type must not depend on the order of the definitions
+    import itertools
+    at = AnnType('Mark', (mkfield('level', I32),), None)
+    mk = Annotation('Mk', 'Mark', None, (), (('level', 1),))
+    mk2 = Annotation('Mk2', 'Mark', None, (), (('level', 2),))
+    cyc = {'Ca': mkstruct('Ca', fields=[mkfield('b', N(R(None, 'Cb')))]),
+           'Cb': mkstruct('Cb', fields=[mkfield('a', N(R(None, 'Ca'))), mkfield('x', I32, anns=(AnnRef(None, 'Mk'),))]),
+           'Cc': mkstruct('Cc', fields=[mkfield('a', L(R(None, 'Ca'), None, None)), mkfield('y', N(STR), anns=(AnnRef(None, 'Mk2'),))])}
+    rest = (mkunion('Cu', tags=[mktag('tv'), mktag('ta', R(None, 'Ca')), mktag('tc', N(R(None, 'Cc')))]), mkroute('rcy', 1, R(None, 'Ca'), R(None, 'Cu'), VOID))
+    for perm in itertools.permutations(sorted(cyc)):
+        defs = (at, mk, mk2) + tuple(cyc[k] for k in perm) + rest
+        out.append((Model((Namespace('na', (File(None, (), defs),)),)), ('annotation-types', 'reference-cycle', 'order ' + ' '.join(perm))))
     return out
 
 
